@@ -877,13 +877,21 @@ fn threads_check(ctx: &mut Ctx, methods: &[&str]) {
         if ctx.out_of_time() {
             break;
         }
-        let (t, fam) = small_game(ctx, i, 500);
-        ctx.stat(&format!("family_{}", fam));
+        let (mut t, mut fam) = small_game(ctx, i, 500);
         let method = methods[(i as usize) % methods.len()];
         let (pn, params) = Params::pick(&mut ctx.rng);
         ctx.stat(&format!("params_{}", pn));
-        let iters = *ctx.rng.pick(&[1u64, 2, 2, 3, 3, 4, 4, 6, 10, 25]);
-        let threads = *ctx.rng.pick(&[2usize, 2, 3, 4, 8, 16]);
+        let mut iters = *ctx.rng.pick(&[1u64, 2, 2, 3, 3, 4, 4, 6, 10, 25]);
+        let mut threads = *ctx.rng.pick(&[2usize, 2, 3, 4, 8, 16]);
+        if i % 12 == 5 {
+            // schedule pressure: many tasks below one opponent infoset, more workers, longer runs
+            let fan = ctx.rng.range(4, 9) as u32;
+            t = contention_game(&mut ctx.rng, fan, 7);
+            fam = "contention";
+            threads = *ctx.rng.pick(&[4usize, 5, 6, 8, 16]);
+            iters = *ctx.rng.pick(&[4u64, 30, 60]);
+        }
+        ctx.stat(&format!("family_{}", fam));
         let target = if ctx.rng.chance(0.6) { Some(ctx.rng.range(1, 64) as usize) } else { None };
         let thr = if ctx.rng.chance(0.2) { 0.05 * t.range() } else { 0.0 };
         let seed = ctx.rng.next() >> 12;
